@@ -11,6 +11,44 @@ NOTE = ("Trusted base: Lean 4.33 kernel (+ leanchecker re-check in the thorough 
         "string/Duration/BTreeSet/StableVec semantics, derive_builder/strum/derive_more/shorthand generated code, derived PartialEq/Ord/Hash. ")
 
 CLAIMS = {
+    "C09": {
+        "technique": "Lean 4 proof (validator = exactly the three rules; integer rounding spec; soundness and completeness over line histories) + boundary differential run through text and builder",
+        "text": ("Proof (Lean 4) on the model: roundedSecs_spec (rounding to the nearest second with halves up, in integer nanoseconds, for every duration), "
+                 "validateSegments_iff (the validator accepts iff the duration rule holds for every segment, the byte ranges are well chained and the "
+                 "independent-segments condition of the code holds), accepted_durations (for every builder configuration and every accepted line history no "
+                 "reported segment exceeds target + allowance after rounding), too_long_rejected (a parsed segment breaking the rule rejects the playlist), "
+                 "rule_whole_seconds. Tie: 1 ns steps around every x.5 boundary for targets up to 2^64-1 s and allowances {none,0,1,2 s, sub-second}, through the "
+                 "builder (exact Durations, incl. magnitudes above 2^24 s where float rounding used to fail) and through text with the allowance configured on "
+                 "the parsing builder; acceptance and reported durations must agree between library and model and match an independent integer formula."),
+        "design_ref": "DESIGN.md §7 C09",
+        "note": "Text durations are exact below 2^23 s with <= 9 fractional digits (emulated f64 path, validated by the run).",
+    },
+    "C15": {
+        "technique": "Lean 4 proof for every input string (never both; foreign tags rejected) over tables regenerated from the UnexpectedTag arms + exhaustive line-sequence differential run on both parsers",
+        "text": ("Proof (Lean 4) on the model, at the level of input TEXT: never_both (no string is accepted by both parseMaster and parseMedia: an accepted media "
+                 "text contains an EXT-X-TARGETDURATION item, which the master loop rejects), master_rejects_media_tags / media_rejects_master_tags (an accepted "
+                 "text decomposes into classified items none of which is a foreign tag or, for master, a bare URI), header_required, streaminf_pairs / "
+                 "streaminf_trailing (the line after STREAM-INF is part of that item; a dangling STREAM-INF is an error item). masterStep_err_iff and "
+                 "mediaStep_foreign are proved against Generated.masterRejects / mediaRejects, which a mini-translator regenerates from the two parsers' "
+                 "UnexpectedTag arms on every run (tables_match pins them to the 13 + 4 kinds of the property). Tie: every sequence of <= 3 (4) representative "
+                 "lines behind the header, and all short headerless ones, on both parsers of library and model (status must agree) plus the property's "
+                 "rejection rules evaluated in Python; generated playlists and fixtures crossed to the other parser."),
+        "design_ref": "DESIGN.md §7 C15",
+        "note": "A builder pre-configured with target_duration can accept a text without EXT-X-TARGETDURATION (API design; TryFrom/FromStr are what the property is about).",
+    },
+    "C16": {
+        "technique": "Lean 4 proof (prefix stability of the parse/build pipeline, index-shift lemma for sliding, rejection inside an item) + all-windows / all-cuts differential run",
+        "text": ("Proof (Lean 4) on the model: append_stable (if a line history and an extension without a new MEDIA-SEQUENCE line are both accepted, the "
+                 "segments of the shorter are a prefix of the segments of the longer: identical numbers and content; read backwards: a cut at a line "
+                 "boundary), cut_inside_item_rejected (a history that stops after EXTINF/BYTERANGE/DISCONTINUITY/KEY/MAP/PROGRAM-DATE-TIME/DATERANGE with no "
+                 "URI line behind it is rejected), trailing_error_item_rejected (dangling STREAM-INF), built_shift + built_drop + built_prev_irrelevant + "
+                 "slide_stable (dropping k segments, raising the media sequence by k and restating the first byte range leaves every remaining segment's "
+                 "number, URI, byte range, keys and effective IV unchanged). Tie: for random live histories EVERY window [k,m) is rendered as a server would "
+                 "and parsed by library and model; each history segment must have one identity (number, URI, resolved range, key set with effective IVs) in "
+                 "all windows; generated playlists are cut at every line boundary (rejected or prefix; never accepted right behind a segment tag)."),
+        "design_ref": "DESIGN.md §7 C16",
+        "note": "slide_stable is stated on the build loop (parsed segments -> reported segments); that the restated keys give the same parsed key sets is C06's refinement theorem.",
+    },
     "C06": {
         "technique": "Lean 4 refinement proof (parser key-set update refines the RFC 4.3.2.4 specification, lifted to every accepted text) + exhaustive event-sequence differential run",
         "text": ("Proof (Lean 4) on the model, full strength at the level of input TEXT: abs_step (the parser's replace-by-format / clear-on-NONE update of the "
